@@ -2,6 +2,7 @@
   Props/C02.lean — weekly jobs are due exactly at the requested weekday and time, every 7 days.
 -/
 import SchedVerif.Lemmas.Job
+import SchedVerif.Props.C01
 namespace SV
 
 /-- the distance in days to a target weekday is always in 1..7 and lands on the target;
@@ -51,6 +52,24 @@ theorem C02.advance (tm : Timer) (wd : Int) (t : Tod) (ht : tm.timing = .weekly 
   rw [Timer.calcNext_none _ h.nc]
   have := advance_on_occ _ h.valid h.nc _ h.aw ho
   rw [this, ht]; rfl
+
+/-- **every 7 days, any number of executions**: after `k` executions of a weekly job its due time is
+    `first + k·7 days`, and it is still an occurrence of the trigger (same weekday and clock time in
+    the trigger's own offset, by `C02.fields`) -/
+theorem C02.kth (tm : Timer) (wd : Int) (t : Tod) (ht : tm.timing = .weekly wd t) (h : tm.WF)
+    (ho : Occ tm.timing tm.next.inst) (k : Nat) :
+    (tm.execs k).next.inst = tm.next.inst + k * WEEK ∧ Occ tm.timing (tm.execs k).next.inst := by
+  have hk := C01.kth tm h ho k
+  have hp : tm.timing.period = WEEK := by rw [ht]; rfl
+  refine ⟨by rw [hk.1, hp], ?_⟩
+  induction k generalizing tm with
+  | zero => simpa [Timer.execs] using ho
+  | succ k ih =>
+      obtain ⟨_, h2, h3⟩ := C01.advance tm h ho
+      have htt : (tm.calcNext none).timing = tm.timing := by rw [Timer.calcNext_none _ h.nc]
+      have := ih (tm.calcNext none) (htt ▸ ht) h3 (htt ▸ h2) (C01.kth _ h3 (htt ▸ h2) k) (by rw [htt]; exact hp)
+      simp only [Timer.execs]
+      rw [← htt]; exact this
 
 /-! non-vacuity -/
 example : (Timing.weekly 6 { h := 23, m := 59, s := 59, us := 999999, off := some (-34200000000) }).valid := by
